@@ -273,6 +273,7 @@ def rule_expansion(ctx, F):
         ("<DoubleClosedRankPairRange>", "Ofsuit"): ("<DoubleClosedRankPairRange>.0.<Ofsuit>.1", "<DoubleClosedRankPairRange>.1", ["<DoubleClosedRankPairRange>.0.<Ofsuit>.0", "item"]),
     }
     found = {}
+    cands = []      # (line, ctor, a, b, variant, ops, prob)
     for bi, t in it.calls():
         if bi not in it.cfg.reachable or t["callee"].get("name") != "flat_map":
             continue
@@ -288,6 +289,37 @@ def rule_expansion(ctx, F):
         if cs is None:
             raise Unrecognised(rule, "flat_map closure is not |r| RankPair::V(.., r).into_iter().map(|cp| (cp, weight))", it.path, it.blocks[bi]["line"])
         variant, ops, prob = cs
+        cands.append((it.blocks[bi]["line"], ctor, a, b, variant, ops, prob))
+    # the same expansion written as loops: for r in RankRange::ctor(a, b) { for cp in RankPair::V(.., r) { v.push((cp, w)) } }
+    from rules import runpass
+    fl_ = L.for_loops(it, pr)
+    loop_singles = []
+    for inner in fl_:
+        isrc, ich = inner.chain()
+        if any(c_.rsplit("::", 1)[-1] != "into_iter" for c_ in ich):
+            continue
+        s_in = P.strip(isrc)
+        pushes_ = [bi for bi, t in it.calls() if bi in inner.body and t["callee"].get("name") == "push"]
+        if len(pushes_) != 1:
+            continue
+        tup = P.strip(pr.operand(it.blocks[pushes_[0]]["term"]["args"][1]))
+        if not (tup[0] == "agg" and tup[1] == "tuple" and len(tup[2]) == 2 and P.strip(tup[2][0]) == P.strip(inner.item_term)):
+            continue
+        sound = L.in_every_iteration(it, inner, pushes_[0]) and not runpass.early_exits(it, inner)
+        outers = [lp for lp in fl_ if lp is not inner and inner.header in lp.body]
+        if s_in[0] == "agg" and s_in[1].startswith("adt:" + tokmodel.RANK_PAIR + "::") and len(outers) == 1:
+            outer = outers[0]
+            osrc, och = outer.chain()
+            so = P.strip(osrc, calls=False)
+            if not (so[0] == "call" and so[1].startswith("card::rank_range::RankRange::") and all(c_.rsplit("::", 1)[-1] == "into_iter" for c_ in och)):
+                continue
+            sound = sound and not runpass.early_exits(it, outer) and L.in_every_iteration(it, outer, inner.header)
+            ops = ["item" if P.strip(o) == P.strip(outer.item_term) else spec(o) for o in s_in[2]]
+            prob = spec(tup[2][1]) if sound else "conditional"
+            cands.append((inner.line, so[1].rsplit("::", 1)[-1], spec(so[2][0]), spec(so[2][1]), s_in[1].rsplit("::", 1)[-1], ops, prob))
+        elif not outers and spec(isrc) == "<SingleRankPair>.0":
+            loop_singles.append((inner.line, spec(tup[2][1]) == "weight" and sound))
+    for (line_, ctor, a, b, variant, ops, prob) in cands:
         kind = next((k for (k, v) in want if (b or "").startswith(k) or (a or "").startswith(k) or (a or "").startswith("next(" + k)), None)
         key = (kind, variant)
         w = want.get(key)
@@ -296,7 +328,7 @@ def rule_expansion(ctx, F):
             ctx.violation(rule, f"{it.path}|{kind}-{variant}",
                           f"expansion of {kind}({variant}) walks RankRange::{ctor}({a}, {b}) building {variant}({', '.join(ops)}) with weight "
                           f"{prob}; notation prescribes inclusive{w[:2] if w else '?'} building {variant}({', '.join(w[2]) if w else '?'}) with the token's weight",
-                          fn=it.path, file=it.file, line=it.blocks[bi]["line"], construct=f"expansion arm {kind}({variant})")
+                          fn=it.path, file=it.file, line=line_, construct=f"expansion arm {kind}({variant})")
         else:
             found[key] = True
             ctx.ok(rule, {"token": f"{kind}({variant})", "range": f"inclusive({a}, {b})", "pair": f"{variant}({', '.join(ops)})", "weight": prob}, sample=True)
@@ -305,6 +337,13 @@ def rule_expansion(ctx, F):
             ctx.violation(rule, f"{it.path}|missing|{key[0]}-{key[1]}", f"no expansion arm for {key[0]}({key[1]})", fn=it.path, file=it.file, line=it.line)
     # single rank pair / single card pair arms: the weight is the token's
     singles = 0
+    for (line_, ok_) in loop_singles:
+        singles += 1
+        if ok_:
+            ctx.ok(rule, {"token": "SingleRankPair", "pair": "as given", "weight": "weight", "form": "loop"}, sample=True)
+        else:
+            ctx.violation(rule, f"{it.path}|SingleRankPair", "a single rank pair does not expand to its combos with the token's weight",
+                          fn=it.path, file=it.file, line=line_)
     for bi, t in it.calls():
         if bi not in it.cfg.reachable:
             continue
